@@ -127,12 +127,34 @@ def main(argv: list[str]) -> int:
 
     dbs: dict[str, Database | None] = {"id": None, "wallet": None}
 
+    im_box: dict = {"im": None}
+
     def identity() -> IdentityDatabase:
         if dbs["id"] is None:
-            db = IdentityDatabase(os.path.join(d, "identity", "identity.db"))
-            db.open()
-            dbs["id"] = db
+            # through the manager the library itself uses (it creates and opens the IdentityDatabase)
+            from ipv8.attestation.identity.manager import IdentityManager
+            im_box["im"] = IdentityManager(os.path.join(d, "identity", "identity.db"))
+            dbs["id"] = im_box["im"].database
         return dbs["id"]
+
+    # inside a compound call (one credential through the manager, one disclosure through substantiate) every inner
+    # insert_* call that returns is acknowledged on its own: state["compound"] maps the row's key to its op index
+    def wrap_insert(name: str, keyfn) -> None:
+        orig = getattr(IdentityDatabase, name)
+
+        def wrapper(self, *args, **kwargs):  # noqa: ANN001, ANN002, ANN003, ANN202
+            out = orig(self, *args, **kwargs)
+            comp = state.get("compound")
+            if comp is not None:
+                idx = comp.get(keyfn(*args))
+                if idx is not None and idx not in state["compound_acked"]:
+                    state["compound_acked"].add(idx)
+                    say({"t": "ack", "i": idx})
+            return out
+        setattr(IdentityDatabase, name, wrapper)
+    wrap_insert("insert_token", lambda pk, tok: "tok:" + tok.previous_token_hash.hex() + ":" + tok.content_hash.hex())
+    wrap_insert("insert_metadata", lambda pk, md: "meta:" + md.token_pointer.hex())
+    wrap_insert("insert_attestation", lambda pk, auth, att: "att:" + auth.key_to_bin().hex() + ":" + att.metadata_pointer.hex())
 
     def wallet() -> AttestationsDB:
         if dbs["wallet"] is None:
@@ -184,9 +206,35 @@ def main(argv: list[str]) -> int:
                 mgr = managers.get(op["pk"])
                 if mgr is None or mgr.database is not identity():
                     mgr = managers[op["pk"]] = PseudonymManager(identity(), public_key=pub(op["pk"]))
-                mgr.add_credential(token, md, atts)
-                for j in range(i, i + op["span"]):
-                    say({"t": "ack", "i": j})
+                state["compound"], state["compound_acked"] = op["index_of"], set()
+                try:
+                    mgr.add_credential(token, md, atts)
+                finally:
+                    state["compound"] = None
+                for j in sorted(set(op["index_of"].values()) - state["compound_acked"]):
+                    say({"t": "skip", "i": j})        # the call is over and never made this insert
+                continue
+            elif kind == "subst":
+                # a disclosure of someone else's pseudonym, loaded the way IdentityCommunity does on a disclose message
+                identity()
+                import struct as _struct
+                mds = b""
+                for m in op["metas"]:
+                    blob = unhex(m["tp"]) + unhex(m["json"]) + unhex(m["sig"])
+                    mds += _struct.pack(">I", len(blob)) + blob
+                atts_b = b"".join(unhex(a["mp"]) + unhex(a["sig"]) for a in op["atts"])
+                auths = b"".join(_struct.pack(">H", len(unhex(a["auth"]))) + unhex(a["auth"]) for a in op["atts"])
+                if op.get("damage"):
+                    auths = auths + b"\x00\x40garbage"     # a damaged authorities section: parsing raises after the valid part
+                state["compound"], state["compound_acked"] = op["index_of"], set()
+                try:
+                    im_box["im"].substantiate(pub(op["pk"]), mds, unhex(op["tokens"]), atts_b, auths)
+                except Exception as e:  # noqa: BLE001 - the overlay's packet handler swallows (and logs) this
+                    say({"t": "swallowed", "i": i, "exc": repr(e)[:120]})
+                finally:
+                    state["compound"] = None
+                for j in sorted(set(op["index_of"].values()) - state["compound_acked"]):
+                    say({"t": "skip", "i": j})
                 continue
             elif kind == "token":
                 if op["content"] is None:
@@ -212,6 +260,9 @@ def main(argv: list[str]) -> int:
                     except Exception as e:  # noqa: BLE001 - noted; durability is judged from the files
                         say({"t": "close_error", "exc": repr(e)[:200]})
                     dbs[op["db"]] = None
+                    if op["db"] == "id":
+                        im_box["im"] = None
+                        managers.clear()
                 (identity if op["db"] == "id" else wallet)()
             else:
                 raise ValueError(kind)
